@@ -75,8 +75,10 @@ Definition set_cur (c : option Z) (s : st) : st :=
   mkSt (next_id s) (reg s) (ext s) c (cls s) (sets s) (nuser s).
 
 (* weakref callbacks: every key whose agent has no strong reference left disappears *)
+Definition upd_sets (g : sref -> list Z -> list Z) (l : list (sref * list Z)) : list (sref * list Z) :=
+  map (fun e => (fst e, g (fst e) (snd e))) l.
 Definition sweep (s : st) : st :=
-  set_sets (map (fun e => (fst e, filter (alive s) (snd e))) (sets s)) s.
+  set_sets (upd_sets (fun _ m => filter (alive s) m) (sets s)) s.
 
 (* the two model-owned sets an agent of class c is a member of *)
 Definition touches (c : Z) (r : sref) : bool :=
@@ -88,7 +90,7 @@ Definition touches (c : Z) (r : sref) : bool :=
 Definition deregister (a : Z) (s : st) : st :=
   if memz a (reg s) then
     mkSt (next_id s) (remove_z a (reg s)) (ext s) (cur s) (cls s)
-         (map (fun e => if touches (class_of s a) (fst e) then (fst e, remove_z a (snd e)) else e) (sets s))
+         (upd_sets (fun r m => if touches (class_of s a) r then remove_z a m else m) (sets s))
          (nuser s)
   else s.
 
@@ -109,7 +111,7 @@ Definition has_set (r : sref) (l : list (sref * list Z)) : bool :=
    _all_agents.add(agent) *)
 Definition create1 (c : Z) (keep : bool) (s : st) : st :=
   let a := next_id s in
-  let sets1 := map (fun e => if touches c (fst e) then (fst e, snd e ++ [a]) else e) (sets s) in
+  let sets1 := upd_sets (fun r m => if touches c r then m ++ [a] else m) (sets s) in
   let sets2 := if has_set (SType c) (sets s) then sets1 else sets1 ++ [(SType c, [a])] in
   mkSt (a + 1) (reg s ++ [a]) (if keep then ext s ++ [a] else ext s) (cur s)
        ((a, c) :: cls s) sets2 (nuser s).
